@@ -61,6 +61,14 @@ fn acts(n: &Node, jump_to: u64) -> Vec<Action> {
         v.push(Action::Batch { label: "[faucet-a , faucet-b]".into(), txs: vec![fs[0].1.clone(), fs[1].1.clone()], expect_ok: false });
         v.push(Action::Batch { label: "[faucet-b , faucet-grandfathered , faucet-a]".into(), txs: vec![fs[1].1.clone(), fs[3].1.clone(), fs[0].1.clone()], expect_ok: false });
     }
+    // the marker a faucet leaves behind cannot be spent (nothing hashes to its address, whatever its value): were it spent, the
+    // faucet could be applied again
+    if let Some((cid, cdh)) = n.model.coins.iter().find(|(_, d)| d.coin_data.covhash == addr_true() && d.coin_data.denom == Denom::Mel && d.coin_data.value.0 > 0) {
+        for (mid, _) in n.model.coins.iter().filter(|(_, d)| d.coin_data.value.0 == 0 && d.coin_data.covhash == melstructs::Address(tmelcrypt::HashVal::default())).take(2) {
+            let t = tx_t(TxKind::Normal, vec![*cid, *mid], vec![out_t(cdh.coin_data.value.0, Denom::Mel)], 0, vec![0x6d]);
+            v.push(Action::Batch { label: format!("spend-faucet-marker({})", hex::encode(&mid.txhash.0[..2])), txs: vec![t], expect_ok: false });
+        }
+    }
     v.push(Action::Seal(None));
     v
 }
